@@ -518,7 +518,7 @@ where
 {
     let n = m.n();
     let r = c.rank_out as usize;
-    let lay = GGLWEToGGSWKeyLayout { n: Degree(n as u32), base2k: Base2K(c.kb as u32), k: TorusPrecision(c.key_k() as u32), rank: Rank(r as u32), dnum: Dnum(c.dnum as u32), dsize: Dsize(c.dsize as u32) };
+    let lay = GGLWEToGGSWKeyLayout { n: Degree(n as u32), base2k: Base2K(c.kb as u32), k: TorusPrecision((c.key_k() + ((c.seed >> 11) % 3) as usize * c.kb as usize) as u32), rank: Rank(r as u32), dnum: Dnum(c.dnum as u32), dsize: Dsize(c.dsize as u32) };
     let ni = c.noise_infos();
     let enc = EncryptionLayout::new(lay, ni).unwrap();
     let mut key = GGLWEToGGSWKey::alloc_from_infos(&lay);
